@@ -169,7 +169,7 @@ def c14(tier):
                     bounds={"tree": "%d blocks x %d frames each x %d loops per container x %d packets x %d items (concrete shape; shapes enumerated by the driver)" % (b, f, l, p, i),
                             "handler program": "every assignment of {CONTINUE,SKIP_CURRENT,SKIP_SIBLINGS,END,7} to the %d callback invocations" % nev},
                     note="real cif_walk/walk_* over a symbolic tree vs reference walker (MUST/MUSTNOT/MAY)"))
-    (b, f, l, p, i) = (1, 1, 1, 2, 1) if tier == "quick" else (2, 1, 1, 2, 1)
+    (b, f, l, p, i) = (1, 1, 1, 2, 1)          # (2, 1, 1, 2, 1) under CBMC's memory checks: engine error after 8-30 min per instance (measured), not used
     ncalls = 1 + b * (1 + f) * (2 + l * (1 + p))
     for k in range(1, ncalls + 1):
         d = {"MAXB": b, "MAXF": f, "MAXL": l, "MAXP": p, "MAXI": i, "FAIL_AT": k, "EXACT_SHAPE": None}
